@@ -84,6 +84,9 @@ def main():
             if not os.path.exists(mp):
                 continue
             meta = json.load(open(mp))
+            if meta.get("status") == "subsumed":
+                print(f"SUBSUMED seeded={sid} (kept for the record, see meta.json)")
+                continue
             if not demo(sid):
                 bad += 1
             res = trial(sid, meta.get("trial_checks") or meta.get("caught_by") or [meta["breaks"]])
